@@ -132,7 +132,7 @@ def checksOf (m : MState) : Ev → List (Bool × String)
       (!tryOnePC || t.attemptedKeys.all (fun k => muts.any (·.1 == k)), "rule8 try_one_pc with more than one prewrite request"),
       (minReq == 0 || minReq > startTS, "rule7 min_commit_ts not above start_ts"),
       -- rule 8: an async-commit primary lists exactly all other locked keys (when the buffered writes are known)
-      (!(_async && muts.any (·.1 == primary)) || t.buffer.isEmpty ||
+      (!(_async && muts.any (·.1 == primary)) || t.buffer.isEmpty || t.relaxLocks ||
         (let others := ((expectedMuts t).filter (fun x => x.2.1 != .checkNotExists && x.1 != primary)).map (·.1)
          others.all (fun k => _secondaries.contains k) && _secondaries.all (fun k => others.contains k)),
         "rule8 async-commit primary does not list exactly the other locked keys as secondaries") ]
